@@ -884,6 +884,7 @@ class Interp:
         self.scopes = None       # optional c11.Scopes of the function whose sub-expressions are evaluated
         self.depth = 0
         self.max_depth = max_depth
+        self.overlay = {}        # locals re-assigned with `x = v` (see ev: assign)
 
     def call_fn(self, fn_hir, args):
         env = {}
@@ -891,10 +892,12 @@ class Interp:
         if self.depth > self.max_depth:
             self.depth -= 1
             raise NotEvaluable("call depth")
+        saved_overlay, self.overlay = self.overlay, {}
         try:
             return _plain(self._call_fn(fn_hir, args, env))
         finally:
             self.depth -= 1
+            self.overlay = saved_overlay
 
     def _call_fn(self, fn_hir, args, env):
         if len(args) != len(fn_hir["params"]):
@@ -914,6 +917,7 @@ class Interp:
             if p.get("sub") and not self.bind(p["sub"], v, env):
                 return False
             env[p["n"]] = v
+            self.overlay.pop(p["n"], None)       # a new binding of the name ends the life of an assigned value
             return True
         if k in ("ref", "deref"):
             return self.bind(p["sub"], v, env)
@@ -981,6 +985,8 @@ class Interp:
         if k == "path":
             r = e.get("res") or {}
             if r.get("kind") == "Local":
+                if r.get("path") in self.overlay:
+                    return self.overlay[r["path"]]
                 if r.get("path") in env:
                     return env[r["path"]]
                 b = self.scopes.use.get(id(e)) if self.scopes is not None else None
@@ -1151,7 +1157,15 @@ class Interp:
             nm = tgt["res"]["path"]
             val = _plain(self.ev(e["b"], env))
             if k == "assign":
-                raise NotEvaluable("re-assignment of a local")     # environments are copied per block: keep to mutation in place
+                # environments are copied per block, so a plain `x = v` is kept in an overlay that shadows x until x is bound again
+                self.overlay[nm] = val
+                return None
+            if isinstance(env[nm] if nm not in self.overlay else self.overlay[nm], int) and isinstance(val, int) \
+                    and str(e.get("op") or "").replace("Assign", "") in ("Add", "Sub", "Mul"):
+                cur0 = self.overlay.get(nm, env[nm])
+                op0 = str(e.get("op")).replace("Assign", "")
+                self.overlay[nm] = cur0 + val if op0 == "Add" else cur0 - val if op0 == "Sub" else cur0 * val
+                return None
             op = str(e.get("op") or "")
             cur = env[nm]
             if isinstance(cur, StrBuf) and op.startswith("Add") and isinstance(val, str):
@@ -1206,6 +1220,21 @@ class Interp:
         m = e["m"]
         recv = self.ev(e["recv"], env)
         args = [_plain(self.ev(a, env)) for a in e["args"]]
+        if isinstance(recv, int) and not isinstance(recv, bool) and m in ("wrapping_mul", "wrapping_add", "wrapping_sub") \
+                and args and isinstance(args[0], int):
+            mm = re.search(r"([ui])(8|16|32|64|128)$", e.get("recv_ty") or "")
+            if not mm:
+                raise NotEvaluable(f"{m} on an integer of unknown width ({e.get('recv_ty')})")
+            bits = int(mm.group(2))
+            v = {"wrapping_mul": recv * args[0], "wrapping_add": recv + args[0], "wrapping_sub": recv - args[0]}[m] % (1 << bits)
+            if mm.group(1) == "i" and v >= 1 << (bits - 1):
+                v -= 1 << bits
+            return v
+        if isinstance(recv, list) and m == "fold" and len(args) == 2:
+            acc = args[0]
+            for x in recv:
+                acc = self.apply(args[1], acc, x)
+            return acc
         if isinstance(recv, StrBuf):
             if m == "push" and isinstance(args[0], str):
                 recv.s += args[0]
